@@ -159,6 +159,32 @@ def run_case(case, sets=None):
             out.append(("planar pose (heading %.12g deg about the %s normal) "
                         "changed by projection to heading %.12g" %
                         (h_in, plane, h_out), cls, k))
+    # operations in between do not re-enable projecting
+    if "only" not in case:
+        Tm = geom.pose(geom.rodrigues((0, 0, 1), 0.3), [1.0, 2.0, 0.0])
+        for between in ("transform", "transform-right", "scale", "reduce",
+                        "align_origin"):
+            t2, _ = build(Rs[:5], ps[:5], case["ctor"], case["reads"])
+            t2.project(Plane(plane))
+            if between == "transform":
+                t2.transform(np.eye(4))
+            elif between == "transform-right":
+                t2.transform(Tm.copy(), right_mul=True)
+            elif between == "scale":
+                t2.scale(2.0)
+            elif between == "reduce":
+                t2.reduce_to_ids([0, 1])
+            else:
+                t2.align_origin(build(Rs[:5], ps[:5], "se3", [])[0])
+            for p2 in ("xy", "xz", "yz"):
+                try:
+                    t2.project(Plane(p2))
+                    out.append(("second projection (%s) after %s was not "
+                                "refused" % (p2, between),
+                                {"kind": "second-projection"}, None))
+                    break
+                except TrajectoryException:
+                    pass
     # second projection is refused and changes nothing
     snap = common.snapshot(t)
     for p2 in ("xy", "xz", "yz"):
